@@ -3,6 +3,7 @@ import Arc.Generated.C22
 import Arc.Proofs.C22.Files
 import Arc.Proofs.C22.RestoreParents
 import Arc.Model.C22.PreFix
+import Arc.Proofs.C22.Tokens
 /-!
 # C22 — cluster state machine: replay determinism and snapshot fidelity
 
@@ -16,8 +17,9 @@ Stated here about the CURRENT FSM (after fixes 464463f "UpdateFile indexes an em
 log indexes, restores anywhere): determinism, batch atomicity, `filesByDB` agreement
 (`C22_files_index`), snapshot fidelity and replay-from-any-prefix for the manifest and node parts
 (`C22_restore_manifest`, `C22_replay_manifest`), completeness of the RBAC traversal indexes, and —
-for histories with strictly increasing log indexes, which is what Raft delivers — agreement of the
-token/organization name indexes and snapshot fidelity of the token part (see the last section).
+for histories whose log indexes are strictly increasing, which is what Raft delivers — exact
+agreement of `tokensByName` / `tokensByPrefix` with `tokens` and snapshot fidelity of the token part
+(`C22_token_indexes`, `C22_restore_tokens`).
 The two defect classes found before the fixes survive as `C22_prefix_*_witness` statements about the
 explicitly named pre-fix functions (`Arc.C22.PreFix`).
 -/
@@ -257,6 +259,34 @@ theorem C22_prefix_histories_now_fine :
     get2? s1.fs.filesByDB "" "a/f1" = some () ∧ restore (snapshot s1) = s1 ∧
     (apply (runEv State.empty [.cmd 1 (.createToken tokA)]) 2 (.updateToken 1 "" "" "" 0 ["name"])).2 = .invalid ∧
     restore (snapshot s2) = s2 := by decide
+
+/-! ## the token part: indexes by name and by prefix, snapshot fidelity -/
+
+/-- **C22_token_indexes.** For every history with strictly increasing log indexes ≥ 1 (restores
+anywhere): `tokensByName[n] = id` iff token `id` exists with name `n` (hence names are unique);
+`tokensByPrefix[p]` lists exactly the ids of the tokens with prefix `p`, without duplicates, and no
+empty slice is kept; every key is its token's id and is a log index already used; every stored token
+passes `validateTokenEntry` (what `Restore` re-checks); all three maps are in canonical form. -/
+theorem C22_token_indexes (evs : List Ev) (hinc : idxIncreasing 1 evs = true) :
+    TokInv (runEv State.empty evs).au (nextIdx 1 evs : Nat) :=
+  tokInv_runEv State.empty 1 evs (tokInv_empty _) hinc
+
+/-- **C22_restore_tokens.** … and therefore snapshot + restore reproduces the token part exactly:
+the primary map (nothing is quarantined) and both rebuilt indexes. -/
+theorem C22_restore_tokens (evs : List Ev) (hinc : idxIncreasing 1 evs = true) :
+    (restore (snapshot (runEv State.empty evs))).au.tokens = (runEv State.empty evs).au.tokens ∧
+    (restore (snapshot (runEv State.empty evs))).au.byName = (runEv State.empty evs).au.byName ∧
+    (restore (snapshot (runEv State.empty evs))).au.byPrefix = (runEv State.empty evs).au.byPrefix :=
+  restoreAu_tok (C22_token_indexes evs hinc)
+
+/-- non-vacuity: create, rename, rotate onto a shared prefix, restore, delete -/
+example :
+    let evs : List Ev :=
+      [.cmd 1 (.createToken tokA), .cmd 2 (.createToken { tokA with name := "tB" }),
+       .cmd 3 (.updateToken 1 "tC" "" "" 0 ["name"]), .cmd 5 (.rotateToken 2 "h2" "q"), .restore,
+       .cmd 6 (.rotateToken 1 "h3" "q"), .cmd 7 (.updateToken 2 "" "" "" 0 ["name"]), .cmd 9 (.deleteToken 1)]
+    idxIncreasing 1 evs = true ∧ (runEv State.empty evs).au.byName = [("tB", 2)] ∧
+    (runEv State.empty evs).au.byPrefix = [("q", [2])] := by decide
 
 /-! ## traversal indexes of the RBAC hierarchy are complete (full strength) -/
 
